@@ -72,13 +72,15 @@ type c39Cfg struct {
 	Backups     int
 	ForgetOne   bool
 	SecondKey   bool
+	Orphan      bool // an interrupted backup left packs that no index refers to
 }
 
 // c39Spy records mutation calls that reach the real local backend.
 type c39Spy struct {
 	backend.Backend
-	mu  *sync.Mutex
-	ops *[]string
+	mu     *sync.Mutex
+	ops    *[]string
+	onSave func(h backend.Handle) // called after a Save returned
 }
 
 func (s *c39Spy) Unwrap() backend.Backend { return s.Backend }
@@ -86,7 +88,11 @@ func (s *c39Spy) Save(ctx context.Context, h backend.Handle, rd backend.RewindRe
 	s.mu.Lock()
 	*s.ops = append(*s.ops, fmt.Sprintf("save %s/%s", h.Type, h.Name))
 	s.mu.Unlock()
-	return s.Backend.Save(ctx, h, rd)
+	err := s.Backend.Save(ctx, h, rd)
+	if s.onSave != nil {
+		s.onSave(h)
+	}
+	return err
 }
 func (s *c39Spy) Remove(ctx context.Context, h backend.Handle) error {
 	s.mu.Lock()
@@ -104,6 +110,7 @@ type c39Repo struct {
 	snaps []restic.ID
 	man   map[restic.ID]repokit.Manifest
 	audit *repokit.Audit
+	orphans int // packs not named by any index file
 
 	spyMu  sync.Mutex
 	spyOps []string
@@ -142,11 +149,16 @@ func TestVerifC39(t *testing.T) {
 		}
 		rng := rec.RNG("repo", i)
 		cfg := c39Cfg{Idx: i, Mem: i%2 == 0, Version: 2, Compression: "auto", Backups: rng.Range(3, 5),
-			ForgetOne: rng.Chance(2, 3), SecondKey: rng.Chance(1, 2), Cache: rng.Chance(1, 3)}
+			ForgetOne: rng.Chance(2, 3), SecondKey: rng.Chance(1, 2), Cache: rng.Chance(1, 3), Orphan: rng.Chance(2, 3)}
 		if i%4 == 3 {
 			cfg.Version = 1
 		} else {
-			cfg.Compression = kit.Pick(rng, []string{"off", "auto", "max"})
+			// "max" costs ~1 s of zstd encoder set-up per repository open; compression is not what
+			// this property is about, so it is used rarely
+			cfg.Compression = kit.Pick(rng, []string{"off", "auto", "auto"})
+			if env.Thorough() && i%16 == 5 {
+				cfg.Compression = "max"
+			}
 		}
 		if rng.Bool() {
 			cfg.SmallIndex = uint(rng.Range(8, 40))
@@ -199,6 +211,41 @@ func c39Case(t *testing.T, rec *kit.Rec, cfg c39Cfg, rng *kit.RNG) {
 			}
 		}
 	}
+	if cfg.Orphan {
+		// interrupted backup: cancelled right after its first pack file was stored, so that pack
+		// is not named by any index ("unreferenced pack" for prune)
+		if err := src.addFile(true); err != nil {
+			t.Fatal(err)
+		}
+		ctx, cancel := context.WithCancel(context.Background())
+		var dummyMu sync.Mutex
+		var dummyOps []string
+		g := e.gopts
+		g.BackendInnerTestHook = func(be backend.Backend) (backend.Backend, error) {
+			if e.vbe != nil {
+				be = e.vbe
+			}
+			return &c39Spy{Backend: be, mu: &dummyMu, ops: &dummyOps, onSave: func(h backend.Handle) {
+				if h.Type == backend.PackFile {
+					cancel()
+				}
+			}}, nil
+		}
+		old, _ := os.Getwd()
+		_ = os.Chdir(src.Dir)
+		_, berr := vRunCtx(ctx, g, func(ctx context.Context, gopts global.Options) error {
+			return runBackup(ctx, BackupOptions{GroupBy: data.SnapshotGroupByOptions{Host: true, Path: true}, Host: "hostA"}, gopts, gopts.Term, []string{"."})
+		})
+		_ = os.Chdir(old)
+		cancel()
+		if berr == nil {
+			rec.Note("set-up: the backup that should have been interrupted completed")
+		}
+		if err := e.Unlock(); err != nil {
+			rec.Inconclusive("case %d: unlock after interrupted backup failed: %v", cfg.Idx, err)
+			return
+		}
+	}
 	if cfg.SecondKey {
 		pf := filepath.Join(e.base, "newpw")
 		_ = os.WriteFile(pf, []byte("second-password\n"), 0o600)
@@ -212,6 +259,9 @@ func c39Case(t *testing.T, rec *kit.Rec, cfg c39Cfg, rng *kit.RNG) {
 	e.ReportMonitors(cfg)
 	if !r.refresh() {
 		return
+	}
+	if r.orphans > 0 {
+		rec.Count("repositories_with_unreferenced_packs", 1)
 	}
 	invs := r.invocations(rng, false)
 	kit.Shuffle(rng, invs)
@@ -254,6 +304,18 @@ func (r *c39Repo) refresh() bool {
 		}
 	}
 	sort.Sort(restic.IDs(r.snaps))
+	indexed := map[restic.ID]bool{}
+	for _, locs := range a.Index {
+		for _, l := range locs {
+			indexed[l.Pack] = true
+		}
+	}
+	r.orphans = 0
+	for id := range a.Packs {
+		if !indexed[id] {
+			r.orphans++
+		}
+	}
 	if len(r.snaps) < 2 {
 		r.rec.Inconclusive("case %d: fewer than two snapshots", r.cfg.Idx)
 		return false
@@ -407,7 +469,7 @@ func (r *c39Repo) eval(k int, inv c39Inv) {
 		rec.Count("invocations_failed", 1)
 		if !inv.MayFail {
 			rec.Count("invocations_failed_unexpectedly", 1)
-			rec.Note("unexpected failure of %s: %s", inv.Kind, firstLine(runErr.Error()))
+			rec.Note("unexpected failure of %s [%s]: %s", inv.Kind, inv.Desc, firstLine(runErr.Error()))
 		}
 	}
 	tier := "local"
@@ -471,7 +533,7 @@ func c39PruneOpts(rng *kit.RNG, cfg c39Cfg) (PruneOptions, string) {
 		o.RepackCacheableOnly = true
 	}
 	if rng.Chance(1, 4) {
-		o.SmallPackSize = kit.Pick(rng, []string{"1M", "8M"})
+		o.SmallPackSize = kit.Pick(rng, []string{"1M", "2M"})
 	}
 	if cfg.Version == 2 && cfg.Compression != "off" && rng.Chance(1, 4) {
 		o.RepackUncompressed = true
@@ -483,7 +545,13 @@ func (r *c39Repo) invocations(rng *kit.RNG, damaged bool) []c39Inv {
 	var out []c39Inv
 	add := func(kind, desc string, class c39Class, mayFail bool, run func(ctx context.Context, gopts global.Options) error) {
 		out = append(out, c39Inv{Kind: kind, Desc: desc, Class: class, MayFail: mayFail || damaged, Run: func(gopts global.Options) error {
-			_, err := vRun(gopts, run)
+			if os.Getenv("VERIF_C39_DEBUG") != "" {
+				gopts.Quiet = false
+			}
+			o, err := vRun(gopts, run)
+			if os.Getenv("VERIF_C39_DEBUG") != "" {
+				r.t.Logf("DEBUG %s [%s] err=%v\nstdout: %s\nstderr: %s", kind, desc, err, tail(o.Stdout, 1500), tail(o.Stderr, 600))
+			}
 			return err
 		}})
 	}
@@ -564,7 +632,8 @@ func (r *c39Repo) invocations(rng *kit.RNG, damaged bool) []c39Inv {
 		if r.cfg.Cache && rng.Bool() {
 			o.WithCache = true
 		}
-		add("check-no-lock", fmt.Sprintf("read-data=%v subset=%q unused=%v with-cache=%v", o.ReadData, o.ReadDataSubset, o.CheckUnused, o.WithCache), c39Zero, false, func(ctx context.Context, gopts global.Options) error {
+		// --check-unused reports the blobs left behind by the set-up forget as errors
+		add("check-no-lock", fmt.Sprintf("read-data=%v subset=%q unused=%v with-cache=%v", o.ReadData, o.ReadDataSubset, o.CheckUnused, o.WithCache), c39Zero, o.CheckUnused, func(ctx context.Context, gopts global.Options) error {
 			gopts.NoLock = true
 			_, err := runCheck(ctx, o, gopts, nil, gopts.Term)
 			return err
@@ -596,7 +665,7 @@ func (r *c39Repo) invocations(rng *kit.RNG, damaged bool) []c39Inv {
 			d = "parent"
 		}
 		if rng.Bool() {
-			o.Excludes = []string{kit.Pick(rng, []string{"f0*", "a", "*7"})}
+			o.Excludes = []string{kit.Pick(rng, []string{"f00*", "a", "f*7"})}
 			d += " exclude=" + o.Excludes[0]
 		}
 		if rng.Bool() {
@@ -654,6 +723,16 @@ func (r *c39Repo) invocations(rng *kit.RNG, damaged bool) []c39Inv {
 			d += " host-filter"
 		}
 		po, pd := c39PruneOpts(rng, r.cfg)
+		po.DryRun = false // `forget` has no --dry-run among its prune flags: the CLI hands over DryRun=false
+		if o.Prune && rng.Chance(2, 3) {
+			// make sure the prune step is reached and has work: everything but the newest snapshot
+			// goes, and no unused data is tolerated
+			o = ForgetOptions{DryRun: true, Prune: true, Last: 1}
+			args = nil
+			d = "keep-last=1 ungrouped"
+			po.MaxUnused = "0"
+			pd = "max-unused=0 " + pd
+		}
 		class := c39LockOK
 		if noLock {
 			class = c39Zero
@@ -794,7 +873,7 @@ func (r *c39Repo) invocations(rng *kit.RNG, damaged bool) []c39Inv {
 			}
 		}
 		cats := [][]string{{"config"}, {"masterkey"}, {"snapshot", id.String()}, {"tree", id.String()},
-			{"tree", r.audit.Snaps[id].Tree.String()}, {"index", idx}, {"key", key}, {"pack", pk}, {"blob", blob}}
+			{"tree", id.String() + ":" + r.pathIn(id, "dir", rng)}, {"index", idx}, {"key", key}, {"pack", pk}, {"blob", blob}}
 		for _, n := range rng.Perm(len(cats))[:4] {
 			args := cats[n]
 			nl("cat", args[0], false, func(ctx context.Context, gopts global.Options) error {
